@@ -7,6 +7,7 @@ owns a discrepancy is decided by the caller's predicate (DESIGN section 5)."""
 from __future__ import annotations
 
 import hashlib
+import json
 import itertools
 import multiprocessing as mp
 import random
@@ -119,6 +120,7 @@ def replay(run, tlc_result, opts=None, procs=16):
             for s in res["samples"]:
                 run.sample(s)
     run.extra["accepting_executions"] = run.extra.get("accepting_executions", 0) + accepts
+    run.traces_validated += max(0, tlc_result.ncases - len({json.dumps(o["case"], sort_keys=True) for o in bad}))
     return bad
 
 
